@@ -109,6 +109,31 @@ ASSUMPTIONS += [
     "statically, and the property is stated about the solver's semantics",
 ]
 
+EXPLANATION += (
+    " R7.8 (rules/c07_origins.py): every origin of every new goal is tried as a "
+    "next position. The finish argument of the one FindNodeBackwards call (in "
+    "the driver or in a helper, parameters bound to the driver's arguments; "
+    "once-bound locals and range-for variables resolved) must be origin->where "
+    "for origin an element of goal->origins() for goal an element of "
+    "result.new_goals - either directly (query fused into the two loops) or as "
+    "an element of a set local to the handling of one removal result that "
+    "receives exactly those origin->where values before the query. Every "
+    "range-for on that chain (goals, origins, the set of finish nodes) and every "
+    "loop around the recursive search (positions) must be total: a `break` "
+    "bound to it, a `return false`, or - in a helper - any return inside it is a "
+    "violation (the remaining origins / finish nodes / positions are never "
+    "explored, so a combination whose first-recorded origin is a dead end is "
+    "rejected although a later origin explains it); `return true` is the "
+    "accepted short-circuit of the existential search. An element may be skipped "
+    "in front of its contribution only by the de-duplication idiom "
+    "`!S.insert(finish).second` on a set local to the same scope; any other "
+    "skipping condition, an index loop, goto/throw, a computed return value, a "
+    "set of finish nodes that is a member or is mutated otherwise are analysis "
+    "errors. Blind spots of R7.8: what happens between the query and "
+    "new_positions (the first conditional node on the path), the cycle-skipping "
+    "`continue` in the positions loop, and the completeness of origins() "
+    "itself.")
+
 SC = "pytype/typegraph/solver.cc"
 
 
